@@ -478,15 +478,18 @@ _PROP_ADDENDA = {
     "C08": " The diagonal loop and the three loops of the triple loop range over vertices() or 0..order (F4-diagonal-domain, "
            "F1-all-vertices).",
     "C11": " complement / converse / union / filter_vertices never write in bulk (extend, append) into a field of a local "
-           "representation value, bypassing add_arc (OPS-WRITES).",
+           "representation value, bypassing add_arc (OPS-WRITES). An AdjacencyMap method does not compare the orders of two maps "
+           "and then produce its result without looking at one of them (IDSRC order-compared-as-vertex-set).",
     "C12": " IDSRC covers the blanket impls of graaf::op and every predicate of the property; is_spanning_subdigraph does not "
            "compare the two vertex sequences through zip() (spanning-vertex-sets-equal) and scans the arcs of self against "
-           "d, not the converse (is_spanning_subdigraph-direction).",
+           "d, not the converse (is_spanning_subdigraph-direction). The closed form that is_tournament / is_semicomplete / "
+           "is_complete compare size() with is n(n-1)/2 resp. n(n-1) (evaluated as a term for orders 1..64).",
     "C14": " A per-worker scratch container is not carried from one row to the next (shrinking edits count; a remove that is "
            "followed on every path by the insert of the same key is balanced).",
     "C15": " next_f64 may also be (integer expression of the draw) as f64 * C, evaluated at its largest value in IEEE double "
            "arithmetic (u64::MAX as f64 is 2^64). A seeded generator does not hand out work through an atomic read-modify-write "
-           "while its workers own PRNG streams (NONDET dynamic-work-in-seeded-generator).",
+           "while its workers own PRNG streams (NONDET dynamic-work-in-seeded-generator). In `(0..a).chain(a + 1..n)` the "
+           "skipped vertex is the row being filled (ER-DRAW row-heads-skip-the-row).",
     "C18": " is_connected returns true only on paths that looked at the matrix (connected-without-scan).",
     "C20": " A hand-written eq / cmp that walks the operands' fields through zip() without comparing their lengths is not "
            "field-wise (fieldwise).",
